@@ -274,9 +274,12 @@ private:
             stream_.state_.store(
                 state::source_next_active, std::memory_order_relaxed);
             UNIFEX_TRY {
+              // If stop has been requested in the meantime the callback runs
+              // inline and completes the receiver, which may destroy *this.
+              auto& strm = stream_;
               stopCallback_.construct(
-                  std::move(stopToken), cancel_next_callback{stream_});
-              unifex::start(stream_.nextOp_.get());
+                  std::move(stopToken), cancel_next_callback{strm});
+              unifex::start(strm.nextOp_.get());
             }
             UNIFEX_CATCH(...) {
               stream_.nextReceiver_ = nullptr;
